@@ -65,6 +65,9 @@ type World struct {
 	// lenExact[k]: every R17.len obligation of package k holds (the bytes Vector
 	// appends number exactly what the sizing function returns)
 	lenExact map[string]bool
+	// Overlay: the file contents this world was loaded with in place of the
+	// files on disk (source normalisation passes build on each other)
+	Overlay map[string][]byte
 }
 
 var pkgKeys = []string{"20", "30", "31", "40"}
